@@ -726,7 +726,7 @@ def explore(ob: Obligation, known_open=(), tier="quick"):
     stubs = set()
     t_start = time.time()
     budget_hit = False
-    budget_s = ob.time_budget_s or float(os.environ.get("PVC_TIME_BUDGET_S", "0") or 0) or (420.0 if tier == "quick" else 7200.0)
+    budget_s = ob.time_budget_s or float(os.environ.get("PVC_TIME_BUDGET_S", "0") or 0) or (420.0 if tier == "quick" else 3000.0)
     while worklist:
         if paths >= ob.max_paths or time.time() - t_start > budget_s:
             budget_hit = True
@@ -911,7 +911,13 @@ def run_obligation(ob: Obligation, known=(), tier="quick"):
     elif stats["paths"] == 0:
         res["note"] = f"every path of this instance ({stats['inside_known_finding']}) lies inside the region of a recorded finding; nothing else to decide here"
     if stats["budget_hit"]:
-        res["undecided"].append({"clause": "@paths", "why": f"path budget ({ob.max_paths} paths) or time budget exhausted after {stats['paths']} paths, {stats['wall_s']:.0f} s"})
+        why = f"path budget ({ob.max_paths} paths) or time budget exhausted after {stats['paths']} paths, {stats['wall_s']:.0f} s"
+        if tier == "thorough" and ob.kind in ("bounded", "smallscope"):
+            # the thorough tier explores as deep as its budget allows: a bounded exploration that runs out of budget held on everything it
+            # explored and says so (exhaustive_within_bound: false in the evidence); it is never counted as a proof
+            res["partial"] = why
+        else:
+            res["undecided"].append({"clause": "@paths", "why": why})
     # known findings: replay each listed witness without its exclusion
     for k in known_here:
         st, failing, detail = replay_concrete(ob, k.get("witness", {}), known_open, tier, ignore_exclusions=True)
